@@ -152,12 +152,21 @@ func (st *c03state) rt(v interface{}, uid string, body []byte) string {
 	return fmt.Sprintf("ok type=%d", c03uidOf(got))
 }
 
-// clashSig: the known finding is exactly "another registered type has the same reflect.Type.String()".
+// clashSig: the known finding is exactly "a type with the same reflect.Type.String() was registered
+// after this one" (the later registration replaces the earlier). Anything else that goes wrong with a
+// registered value has another signature.
 func (st *c03state) clashSig(sent, got interface{}) string {
-	for id, mk := range c03goTypes {
-		o := mk()
-		if reflect.TypeOf(o) != reflect.TypeOf(sent) && c03typeName(o) == c03typeName(sent) && st.registered[id] {
-			return "type-name-clash"
+	mine := -1
+	for i, id := range st.regOrder {
+		if reflect.TypeOf(c03goTypes[id]()) == reflect.TypeOf(sent) {
+			mine = i
+		}
+	}
+	if mine >= 0 {
+		for _, id := range st.regOrder[mine+1:] {
+			if c03typeName(c03goTypes[id]()) == c03typeName(sent) {
+				return "type-name-clash"
+			}
 		}
 	}
 	if got == nil {
@@ -818,11 +827,8 @@ func (st *c03state) r4op(tk []string) (string, bool) {
 		}
 		if tk[1] == "reg" {
 			id := network.RegisterMessage(v)
-			if st.registered == nil {
-				st.registered = map[int]bool{}
-			}
 			n, _ := strconv.Atoi(tk[3])
-			st.registered[n] = true
+			st.regOrder = append(st.regOrder, n)
 			st.tag("reg")
 			return h.Hex(id[:]), true
 		}
